@@ -5,6 +5,7 @@ the new manifest's bytes, injected clock (I5) for the UTC time in the file name.
 ascmhl folder across every create / create -sf, `info` output and MHLHistory.load_from_path after the sequence."""
 import datetime as _dt
 import os
+import shutil
 import re
 
 from .. import classify, clock, drive, hist, world
@@ -115,13 +116,26 @@ def run_case(cs):
                             f.write(b"\x00\x05\x16\x07 junk" if not junk.endswith(".tmp") else b"<stale>\n" + b"  <left over by an interrupted run/>\n" * 600)
                         steps.append(f"junk {junk!r} in {h!r}")
                         cs.count("junk_files_in_ascmhl")
+        emptied = False
+        if i > 0 and rng.random() < 0.04:
+            # everything below one history folder is gone (card wiped, folder emptied): the history still gets its generation
+            victim_h = rng.choice(world.find_histories(root))
+            hbase = root if victim_h == "." else os.path.join(root, victim_h)
+            for n in os.listdir(hbase):
+                if n != "ascmhl" and not (victim_h == "." and any(h2.split("/")[0] == n for h2 in world.find_histories(root) if h2 != ".")):
+                    pth = os.path.join(hbase, n)
+                    shutil.rmtree(pth) if os.path.isdir(pth) and not os.path.islink(pth) else os.remove(pth)
+            tree = world.read_tree(root)
+            steps.append(f"emptied {victim_h!r}")
+            cs.count("history_folders_emptied")
+            emptied = True
         files = sorted(k for k, v in world.read_tree(root).items() if v is not None)
         extra = []
-        if files and rng.random() < 0.3:
+        if files and rng.random() < 0.3 and not emptied:
             for f in rng.sample(files, min(len(files), rng.randint(1, 2))):
                 extra += ["-sf", os.path.join(root, f)]
         fm = world.gen_formats(rng) if not long_seq else [rng.choice(world.FORMATS)]
-        r, new, before, after = hist.create(root, fm, extra + (["-n"] if rng.random() < 0.2 and not extra else []))
+        r, new, before, after = hist.create(root, fm, extra + (["-n"] if (rng.random() < 0.2 or (emptied and rng.random() < 0.6)) and not extra else []))
         steps.append(f"create {fm} sf={len(extra) // 2} => {r.exit}")
         exits.add(r.exit)
         cs.evaluated()
@@ -150,6 +164,10 @@ def run_case(cs):
                         cs.violation("manifest-modified", {"kind": "manifest-modified"}, {**ctx, "history": h, "name": name})
             added = sorted(n for n in a if n not in b and n.endswith(".mhl"))
             touched = a != b
+            if not touched and not extra and h in before and "ascmhl_chain.xml" in b:
+                # a run over the whole folder (no -sf, no pattern given) touches every history below it, whatever is left in it
+                cs.violation("touched-history-not-exactly-one-manifest", {"kind": "manifest-count", "added": 0, "folder_mode": True}, {**ctx, "history": h, "added": []})
+                continue
             if not touched:
                 continue
             cs.count("histories_touched")
